@@ -684,6 +684,7 @@ func C20(run *core.Run) {
 	run.Set("distinct_fs_states_observed", len(states))
 	run.Set("real_kills_by_syscall", killBySyscall)
 	run.Set("cases", len(cases))
+	c20Watch(run)
 	run.Finish("for every input file f, at every syscall boundary and inside every write of the traced run (and of runs with injected write errors), and after every real SIGKILL: f == orig(f) or f.bak == orig(f) or f == complete new output",
 		[]string{
 			"a kill is modelled as process death (SIGKILL): data handed to write(2) survives; power loss / page-cache loss is out of scope",
